@@ -3424,6 +3424,21 @@ impl RaftNode {
 
         // Install the snapshot
         let mut persistent = self.persistent.write();
+
+        // CRITICAL: Persist the snapshot's entries to the WAL BEFORE replacing the
+        // in-memory log; later acknowledgements cover these entries, so they must
+        // survive a restart. Entries are overwritten index by index and the stale
+        // tail is cut afterwards, so a crash midway never leaves a shorter log.
+        if let Some(ref wal) = self.wal {
+            for entry in &entries {
+                self.persist_log_entry(entry)?;
+            }
+            let from_index = entries.last().map_or(1, |e| e.index + 1);
+            wal.lock()
+                .append(&crate::raft_wal::RaftWalEntry::LogTruncate { from_index })
+                .map_err(|e| ChainError::StorageError(format!("WAL log persist failed: {e}")))?;
+        }
+
         // Replace log with entries from snapshot - reset base since we have
         // a complete set of entries starting from index 1
         persistent.log = entries;
